@@ -446,6 +446,7 @@ pub fn worker_loop(sc: &dyn Scenario, seed: u64, tier: Tier, w: u64, n: u64, car
     let mut out = WorkerOut::default();
     let mut idx = w;
     let mut digest: u64 = 0xcbf2_9ce4_8422_2325;
+    let slow_ms: Option<u64> = std::env::var("SCALESIM_SLOW_MS").ok().and_then(|s| s.parse().ok());
     use std::io::Write;
     while idx < total {
         if let Some(o) = only {
@@ -468,7 +469,15 @@ pub fn worker_loop(sc: &dyn Scenario, seed: u64, tier: Tier, w: u64, n: u64, car
         }
         out.stats.evaluations += 1;
         let steps_before = out.stats.steps;
+        // Diagnostics only (never influences execution): report slow cases when asked to.
+        let t0 = if slow_ms.is_some() { Some(std::time::Instant::now()) } else { None };
         let v = run_caught(sc, &plan, &mut out.stats);
+        if let (Some(t0), Some(ms)) = (t0, slow_ms) {
+            let el = t0.elapsed().as_millis() as u64;
+            if el >= ms {
+                eprintln!("SLOW case {} {} ms subject={} bytes={:?} src={:?}", idx, el, plan.subject, plan.bytes.as_ref().map(|b| b.0.len()), plan.sources.first().map(|s| s.describe()));
+            }
+        }
         digest = (digest ^ idx ^ (out.stats.steps - steps_before).rotate_left(20) ^ if v.is_ok() { 0 } else { 0xdead }).wrapping_mul(0x0000_0100_0000_01B3);
         if let Err(v) = v {
             if out.violations.len() < 40 {
